@@ -380,6 +380,12 @@ func (l *Ledger) watch(node string, inc int, payreq string, swapID string, typ i
 	}
 }
 
+// PeerPay lets a scripted peer pay an invoice (over any channel it has with the payee).
+func (l *Ledger) PeerPay(payerID, payreq string) (string, error) {
+	pre, _, err, _ := l.pay(payerID, 0, payreq, "", 0, false)
+	return pre, err
+}
+
 // ResolveAllPending settles or fails every pending attempt of payer.
 func (l *Ledger) ResolveAllPending(payer string, settle bool) int {
 	l.w.mu.Lock()
